@@ -214,6 +214,19 @@ Definition sharded_search (strict : bool) (c : tctx)
            (ss : list (shard * (bool * (repo -> doc -> bool)))) : sresult :=
   agg_search (map (fun sq => search strict c (fst sq) (fst (snd sq)) false (snd (snd sq))) ss).
 
+(** shardedSearcher.List: per-shard listings under the caller's context; Repos are merged by name, ReposMap
+    by id, Stats.Documents are added.  [ls] gives, per shard, the (lsimp, scan, m) abstraction of the query. *)
+Record slresult := { sl_names : list N; sl_ids : list N; sl_docs : N }.
+Definition sharded_rlist (strict : bool) (c : tctx) (field : lfield)
+           (ls : list (shard * (option bool * bool * (repo -> doc -> bool)))) : slresult :=
+  fold_left (fun acc sq =>
+               let '(s, (lsimp, scan, m)) := sq in
+               let r := rlist strict c s lsimp scan m field in
+               {| sl_names := fold_left (fun a n => set_add n a) (lr_repos r) (sl_names acc);
+                  sl_ids := fold_left (fun a n => set_add n a) (lr_map r) (sl_ids acc);
+                  sl_docs := (sl_docs acc + lr_docs r)%N |})
+            ls {| sl_names := []; sl_ids := []; sl_docs := 0 |}.
+
 (** -- the owner's view: what a caller is entitled to see ---------------------------------------- *)
 Definition visible_repos (strict : bool) (c : tctx) (s : shard) : list repo :=
   filter (fun r => has_access strict c (r_tenant r)) (map fst s).
@@ -278,14 +291,18 @@ Fixpoint ins4 (x : N * N * N * N) (l : list (N * N * N * N)) : list (N * N * N *
   end.
 Definition sort4 (l : list (N * N * N * N)) := fold_right ins4 [] l.
 
-Definition c23scase := (bool * Z * list (list (c23repo * list c23doc) * bool) * c23obs_search)%type.
+Definition c23scase := (bool * Z * list (list (c23repo * list c23doc) * bool) * c23obs_search *
+                        (bool * list N * list N * N))%type.   (* ... field_is_map, listed names, ReposMap ids, Stats.Documents *)
 Definition c23s_ok (cs : c23scase) : bool :=
-  let '(strict, cz, shs, (ofiles, ourls, ofrags)) := cs in
+  let '(strict, cz, shs, (ofiles, ourls, ofrags), (fmap, onames, oids, odocs)) := cs in
   let c := mk_ctx cz in
   let ss := map (fun p => let mf := matching_files (fst p) in
                           (mk_shard (fst p), (snd p, fun (_ : repo) (d : doc) => memN (d_file d) mf))) shs in
   let sr := sharded_search strict c ss in
+  let ls := map (fun sq => (fst sq, (@None bool, fst (snd sq), snd (snd sq)))) ss in
+  let lr := sharded_rlist strict c (if fmap then FReposMap else FRepos) ls in
   list_eqb row4_eqb (sort4 (map fm_row (sr_files sr))) ofiles &&
   list_eqb pairN_eqb (sr_urls sr) ourls &&
-  list_eqb pairN_eqb (sr_frags sr) ofrags.
+  list_eqb pairN_eqb (sr_frags sr) ofrags &&
+  list_eqb N.eqb (sl_names lr) onames && list_eqb N.eqb (sl_ids lr) oids && N.eqb (sl_docs lr) odocs.
 Definition c23s_mismatches (cs : list c23scase) : list N := bad_indexes c23s_ok cs.
